@@ -126,6 +126,20 @@ int vf_build(unsigned char* out, int cap) {
   mj_deleteModel(m);
   return ok ? (int)sz : -4;
 }
+// mj_makeModel with the j-th size parameter set to vals[j]; returns nnames_map (or -1)
+long long vf_names_map(const long long* vals, int n) {
+  mju_user_error = vf_on_error; mju_user_warning = vf_on_warning;
+  mjModel* m = NULL; mjtSize s[84] = {0};
+  for (int j = 0; j < n && j < 84; j++) s[j] = vals[j];
+  VF_TRY({ mj_makeModel(&m,
+   s[0],s[1],s[2],s[3],s[4],s[5],s[6],s[7],s[8],s[9],s[10],s[11],s[12],s[13],s[14],s[15],s[16],s[17],s[18],s[19],s[20],
+   s[21],s[22],s[23],s[24],s[25],s[26],s[27],s[28],s[29],s[30],s[31],s[32],s[33],s[34],s[35],s[36],s[37],s[38],s[39],s[40],
+   s[41],s[42],s[43],s[44],s[45],s[46],s[47],s[48],s[49],s[50],s[51],s[52],s[53],s[54],s[55],s[56],s[57],s[58],s[59],s[60],
+   s[61],s[62],s[63],s[64],s[65],s[66],s[67],s[68],s[69],s[70],s[71],s[72],s[73],s[74],s[75],s[76],s[77],s[78],s[79],s[80],
+   s[81],s[82],s[83]); });
+  if (vf_error_flag || !m) return -1;
+  long long r = m->nnames_map; mj_deleteModel(m); return r;
+}
 // 1 loaded (and the loaded model validates), 0 rejected with NULL, -99 reached mju_error, -98 loaded but invalid references
 int vf_load(const unsigned char* buf, int n, double* timestep, int* flags) {
   mju_user_error = vf_on_error; mju_user_warning = vf_on_warning;
@@ -269,6 +283,30 @@ def validator_sweep():
                                         'input': {'model': 'one object of every kind (zero-filled by mj_makeModel)', 'array': name, 'index': idx, 'value': val},
                                         'observed': 'mj_validateReferences returns NULL (accepts)', 'violated_clause': cname, 'runs': runs}
                     a[idx] = old
+        # extents that are products of several entries (height-field rows x columns, texture height x width x channels):
+        # two entries large at once, so that a product computed in 32 bits wraps
+        for na, nb in (('hfield_nrow', 'hfield_ncol'), ('tex_height', 'tex_width'), ('tex_width', 'tex_nchannel'), ('tex_height', 'tex_nchannel')):
+            if na not in P or nb not in P or not length(na) or not length(nb):
+                continue
+            pa = ctypes.cast(lib.vf_array(na.encode()), ctypes.POINTER(ctypes.c_int))
+            pb = ctypes.cast(lib.vf_array(nb.encode()), ctypes.POINTER(ctypes.c_int))
+            oa, ob = pa[0], pb[0]
+            for va, vb in ((65536, 65536), (46341, 46341), (131072, 32768), (2**31 - 1, 2**31 - 1), (2**16, 2**16 + 1), (3, 2**31 - 1)):
+                pa[0], pb[0] = va, vb
+                runs += 1
+                if lib.vf_validate() == 1:
+                    m = snapshot()
+                    for cname, src in clauses.items():
+                        try:
+                            ok = concrete_eval({}, src, {'cur': {'m': m}}, extra=extra)
+                        except Exception:   # noqa
+                            continue
+                        if not ok:
+                            pa[0], pb[0] = oa, ob
+                            return {'reproduced': True, 'name': 'validator_accepts_out_of_bounds_extent',
+                                    'input': {'model': 'one object of every kind (zero-filled by mj_makeModel)', na + '[0]': va, nb + '[0]': vb},
+                                    'observed': 'mj_validateReferences returns NULL (accepts)', 'violated_clause': cname, 'runs': runs}
+                pa[0], pb[0] = oa, ob
         return {'reproduced': False, 'cases_run': runs}
     finally:
         native.cleanup(d)
@@ -309,6 +347,20 @@ def native_save_load():
             return {'reproduced': True, 'name': 'round_trip', 'input': {'file': 'harness model, %d bytes' % sz},
                     'observed': {'load': r, 'timestep': ts.value, 'flags(gravcomp,surfacevel,adhesion)': fl.value}, 'expected': {'load': 1, 'timestep': 0.125, 'flags': 5},
                     'violated_clause': 'load(save(m)) reproduces the options and flags'}
+        # mj_makeModel: nnames_map is twice the number of named objects (each named type raised in turn)
+        from contracts import io as cio, modeltab
+        params = modeltab.make_model_params()
+        lib.vf_names_map.restype = ctypes.c_longlong
+        for t in [None] + list(cio.NAMED_TYPES):
+            vals = [0] * len(params)
+            vals[params.index('nbody')] = 1
+            if t is not None:
+                vals[params.index(t)] += 3
+            got = lib.vf_names_map((ctypes.c_longlong * len(vals))(*vals), len(vals))
+            want = 2 * sum(vals[params.index(x)] for x in cio.NAMED_TYPES)
+            if got != want:
+                return {'reproduced': True, 'name': 'mj_makeModel/names_map_size', 'input': {'sizes': {params[j]: v for j, v in enumerate(vals) if v}},
+                        'observed': {'nnames_map': got}, 'expected': {'nnames_map': want}, 'violated_clause': 'nnames_map == 2 * (number of named objects)'}
         for n in range(sz):
             r = load(data[:n])
             if r != 0:
